@@ -180,3 +180,32 @@ PROPS["C02"] = dict(
     outside="G2 (E2/E4 coordinates), twisted Edwards curves, subgroup membership tests, batch conversions: not yet covered",
     assumptions=["real-closed-field surrogate for F_p (identities exact, inequations assumed to transfer)", "finite points are not (0,0)"],
 )
+
+TOWER12 = {"bn254": dict(Beta=-1, XiA=9, XiB=1, DTwist=1, MTwist=0), "bls12-377": dict(Beta=-5, XiA=0, XiB=1, DTwist=1, MTwist=0),
+           "bls12-381": dict(Beta=-1, XiA=1, XiB=1, DTwist=0, MTwist=1)}
+
+
+def tower_params(c):
+    d = dict(TOWER12[c])
+    d.update(FpPath="github.com/consensys/gnark-crypto/ecc/%s/fp" % c, FpSuffix="%s/fp" % c)
+    return d
+
+
+PROPS["C06"] = dict(
+    jobs=[Job("ecc/%s/internal/fptower" % c, ["C06/tower12.go.tmpl", "C06/frob_basis.go.tmpl"], params=tower_params(c), goarch="arm64") for c in TOWER12] +
+         [Job("ecc/%s/internal/fptower" % c, ["C06/tower12_l2.go.tmpl"], params=tower_params(c), goarch="arm64", label=c + "#E6overE2") for c in TOWER12] +
+         [Job("ecc/%s/internal/fptower" % c, ["C06/tower12_l6.go.tmpl"], params=tower_params(c), goarch="arm64", label=c + "#E12overE6") for c in TOWER12],
+    level_text="Proof (no size bound) for the Fp2/Fp6/Fp12 towers of bn254, bls12-377 and bls12-381 that ring operations, "
+               "sparse line products (MulBy034/34, Mul034By034, Mul34By34, MulBy01234; MulBy014/01, Mul014By014, Mul01By01, "
+               "MulBy01245; E6.MulByE2/MulBy01/MulBy1/MulBy12), conjugation, norms, halving, non-residue multiplications and "
+               "inverses equal schoolbook arithmetic in the documented quotient rings, every coordinate arbitrary (zero included); "
+               "Frobenius maps are additive, Fp-linear and equal x -> x^(p^k) on the twelve basis elements.",
+    level_note="Identities are decided over the reals for the base field (valid in every field). Inverses and E6/E12 Mul/Square "
+               "are additionally proved one level up with the level below abstract and the non-residue a free atom. The "
+               "generic (non-assembly) E2 code is selected by loading with GOARCH=arm64; amd64 E2 assembly is C09's subject. "
+               "Table constants given as Montgomery limbs are converted to rationals (or opaque atoms) by the encoder.",
+    bounds="none on operands; three 12-over-6-over-2 towers",
+    outside="bls24 (E4/E24) and bw6 (E3/E6) towers, small-field extensions, cyclotomic/compressed squarings, torus compression, "
+            "Expt/ExpGLV/Exp, square roots, batch inversion, GT membership: not yet covered",
+    assumptions=["real surrogate for F_p", "x^(p^k) is additive (characteristic p)"],
+)
